@@ -379,3 +379,10 @@ Proof.
   intros Hl H. cbv zeta. rewrite <- h_ks_documented. apply homeo_toward_target_when_no_term_negative.
   rewrite h_ks_documented. eapply zip2_Forall; [|exact H]. intros tg r Hr. apply doc_term_below; assumption.
 Qed.
+
+(* the per-step-target form of the run (what the harness executes) is the fixed-target run when the target never changes *)
+Theorem h_run_v_const rk p lam targets steps : forall st,
+  h_run_v RN rk p lam st (map (fun s => (targets, s)) steps) = h_run RN rk p lam targets st steps.
+Proof.
+  induction steps as [|s tl IH]; intros st; [reflexivity|]. cbn [map h_run_v h_run fst snd]. rewrite IH. reflexivity.
+Qed.
